@@ -51,7 +51,27 @@ type ipHist struct {
 	unassignedSeq  int // last successful UnAssign effect requested by the daemon (0: never since assignment)
 	omittedSeq     int // first LoadNetworkInterface answer since assignment that omitted it
 	remoteGoneSeq  int // removed remotely (drift)
+	assignCount    int // how many times the cloud has handed this address out during the run
 }
+
+// recycled tells whether the cloud handed the address out more than once in this run.
+func (c *Cloud) recycled(ip string) bool {
+	a, err := netip.ParseAddr(ip)
+	if err != nil {
+		return false
+	}
+	h := c.hist[a]
+	return h != nil && h.assignCount > 1
+}
+
+func (c *Cloud) newHist(ip netip.Addr, eni string) {
+	n := 0
+	if h := c.hist[ip]; h != nil {
+		n = h.assignCount
+	}
+	c.hist[ip] = &ipHist{eni: eni, assignedSeq: c.w.run.S.SeqNo(), assignCount: n + 1}
+}
+
 
 // Cloud is the node-level SimCloud behind factory.Factory.
 type Cloud struct {
@@ -64,6 +84,7 @@ type Cloud struct {
 	hist    map[netip.Addr]*ipHist
 	// deleted ENIs / addresses handed back by the daemon (conservation)
 	everCreated map[string]bool
+	idByMAC     map[string]string
 	creating    int
 	inflight    int
 	calls       map[string]int
@@ -78,7 +99,7 @@ var (
 
 func newCloud(w *World) *Cloud {
 	return &Cloud{w: w, enis: map[string]*cloudENI{}, used4: map[netip.Addr]bool{}, used6: map[netip.Addr]bool{},
-		hist: map[netip.Addr]*ipHist{}, everCreated: map[string]bool{}, calls: map[string]int{}}
+		hist: map[netip.Addr]*ipHist{}, everCreated: map[string]bool{}, idByMAC: map[string]string{}, calls: map[string]int{}}
 }
 
 func (c *Cloud) alloc4(eni string) netip.Addr {
@@ -87,7 +108,7 @@ func (c *Cloud) alloc4(eni string) netip.Addr {
 		ip = ip.Next()
 	}
 	c.used4[ip] = true
-	c.hist[ip] = &ipHist{eni: eni, assignedSeq: c.w.run.S.SeqNo()}
+	c.newHist(ip, eni)
 	return ip
 }
 
@@ -97,7 +118,7 @@ func (c *Cloud) alloc6(eni string) netip.Addr {
 		ip = ip.Next()
 	}
 	c.used6[ip] = true
-	c.hist[ip] = &ipHist{eni: eni, assignedSeq: c.w.run.S.SeqNo()}
+	c.newHist(ip, eni)
 	return ip
 }
 
@@ -116,6 +137,7 @@ func (c *Cloud) newENI(typ string, v4, v6 int, byDaemon bool) *cloudENI {
 		e.V6 = append(e.V6, c.alloc6(id))
 	}
 	c.enis[id] = e
+	c.idByMAC[e.MAC] = id
 	c.order = append(c.order, id)
 	c.everCreated[id] = true
 	return e
@@ -221,7 +243,7 @@ func (f *simFactory) enter(site string, detail string) (fault string) {
 	}
 	if fault == "slow" {
 		w.run.Fault("cloud.slow")
-		simrt.Sleep(time.Duration(20+w.cfg.CallLatencyMs) * time.Second)
+		simrt.Sleep(30*time.Second + time.Duration(w.cfg.CallLatencyMs)*time.Millisecond)
 		fault = ""
 	}
 	return fault
@@ -357,7 +379,11 @@ func (f *simFactory) unassign(site string, eniID string, ips []netip.Addr) error
 			w.run.Violate("C06", "dispose", "unassign-primary", "%s of primary address %s of %s", site, ip, eniID)
 		}
 		if pod := w.ledgerHolder(ip); pod != "" {
-			w.run.Violate("C06", "dispose", "unassign-in-use", "%s of %s on %s while pod %s holds it", site, ip, eniID, pod)
+			fp := "unassign-in-use"
+			if c.recycled(ip.String()) {
+				fp += "@recycled-address"
+			}
+			w.run.Violate("C06", "dispose", fp, "%s of %s on %s while pod %s holds it", site, ip, eniID, pod)
 		}
 	}
 	if fault == "before" {
@@ -446,6 +472,8 @@ func (f *simFactory) LoadNetworkInterface(mac string) ([]netip.Addr, []netip.Add
 	}
 	e := c.byMAC(mac)
 	if e == nil {
+		// the interface is gone; the metadata lookup fails, which tells the daemon nothing
+		// about individual addresses (an error is not an answer that omits them)
 		f.leave("load", "not found")
 		return nil, nil, fmt.Errorf("metadata: mac %s not found", mac)
 	}
